@@ -301,14 +301,14 @@ int main(int argc, char ** argv)
         // same configuration on every thread, for every double-beta entry of the lock-step pool (one per legacy mode) and a few background
         // nuclides: two instances running the SAME code at the same time after a start barrier is what exposes unsynchronised function-level
         // statics (lazy tables, caches in an integrand) to the race detector and to the solo comparison - initialisation included
-        auto & P = lpool(); std::vector<int> same; for (int i = 0; i < (int)P.size(); i++) if (P[i].kind == "dbd" || i % 9 == 0) same.push_back(i);
+        auto & P = lpool(); std::vector<int> same; for (int i = 0; i < (int)P.size(); i++) same.push_back(i);   // every pool entry: a helper used by a handful of nuclides only (one spectrum shape, one atomic-shell routine) is reached through them alone
         for (size_t k = shard; k < same.size(); k += nsh) {
           const LCfg & c = P[same[k]]; int T = (k % 3 == 2) ? 4 : 2; std::vector<uint64_t> sd(T); for (int t = 0; t < T; t++) sd[t] = 1000 + 17 * k + t;
           gsl_set_error_handler(&h0); g_h0_calls = 0; bxdecay0::verif::gauss_schedule_point = nullptr;
           std::vector<std::string> seq(T), con(T); std::vector<std::thread> th; std::atomic<int> ready{0};
-          for (int t = 0; t < T; t++) th.emplace_back([&, t] { ready++; while (ready.load() < T) std::this_thread::yield(); try { con[t] = lwork(c, sd[t], 3, t, 1, false); } catch (std::exception & e) { con[t] = std::string("EXC:") + e.what(); } });
+          for (int t = 0; t < T; t++) th.emplace_back([&, t] { ready++; while (ready.load() < T) std::this_thread::yield(); try { con[t] = lwork(c, sd[t], 12, t, 1, false); } catch (std::exception & e) { con[t] = std::string("EXC:") + e.what(); } });
           for (auto & x : th) x.join();
-          for (int t = 0; t < T; t++) { try { seq[t] = lwork(c, sd[t], 3, t, 1, false); } catch (std::exception & e) { seq[t] = std::string("EXC:") + e.what(); } }
+          for (int t = 0; t < T; t++) { try { seq[t] = lwork(c, sd[t], 12, t, 1, false); } catch (std::exception & e) { seq[t] = std::string("EXC:") + e.what(); } }
           rep.evaluations++;
           std::string body = "\"same_config\":" + jstr(c.name + ":L" + std::to_string(c.level) + ":M" + std::to_string(c.mode)) + ",\"threads\":" + std::to_string(T);
           bool same_ev = true; for (int t = 0; t < T; t++) if (seq[t] != con[t]) same_ev = false;
